@@ -119,6 +119,8 @@ def gen_history(rng, case, maxlen):
             objs = [o for o in c10.objects(c) if o["g"] in ("GX", "GU")]
             if c["method"]["kind"] == "SS":
                 objs = [o for o in objs if o["g"] == "GU"] or objs
+            if not objs:
+                continue
             o = rng.choice(objs)
             call = {"obj": [o["kind"], o["idx"]], "g": o["g"], "slot": o["slot"], "len": o["len"], "form": "const",
                     "value": jq(dyadic(rng, -3, 3, 2)), "after": False}
